@@ -29,8 +29,9 @@ import (
 type c02Leaf struct {
 	Name string
 	Ty   func() *Src
-	Defs []Def // further definitions the leaf refers to
-	Dflt []JV  // defaults to try (besides none)
+	Defs []Def    // further definitions the leaf refers to
+	Dflt []JV     // defaults to try (besides none)
+	Fmts []string // input formats that can express the leaf (nil = all)
 }
 
 func c02MiniLeaves() []c02Leaf {
@@ -50,6 +51,7 @@ func c02MiniLeaves() []c02Leaf {
 		{Name: "num32", Ty: func() *Src { return srcNum(32, nil, nil) }, Dflt: []JV{jInt(2)}},
 		{Name: "enumS", Ty: func() *Src { return srcEnumS("a", "b") }, Dflt: []JV{jStr("b")}},
 		{Name: "constS", Ty: func() *Src { return srcConst(jStr("v")) }},
+		{Name: "constI", Ty: func() *Src { return srcConst(jInt(2)) }},
 		{Name: "any", Ty: srcAny},
 		{Name: "arrayString", Ty: func() *Src { return srcArray(srcString()) }, Dflt: []JV{jArr(jStr("a"))}},
 		{Name: "arrayRef", Ty: func() *Src { return srcArray(srcRef("S")) }, Defs: []Def{sub}},
@@ -63,18 +65,23 @@ func c02MiniLeaves() []c02Leaf {
 }
 
 type c02MiniShape struct {
-	Tag  string
-	Defs *Defs
+	Tag        string
+	Defs       *Defs
+	Formats    []string // input formats that can express the shape (nil = all)
+	Spell      string   // spelling of constants in the source text (c02_spell.go); "" = the renderer's own
+	Pinned     bool     // no rotation: every run executes the shape in PinFormats under the everything-on configuration
+	PinFormats []string // (thorough: every allowed format, both fixed configurations and the rotating ones)
 }
 
 // c02MiniShapes enumerates the one-member packages and, rotating with `rot`, a few two-member ones.
 func c02MiniShapes(rot int) []c02MiniShape {
 	leaves := c02MiniLeaves()
 	out := []c02MiniShape{}
+	var fmts []string
 	mk := func(tag string, defs []Def, fields ...Field) {
 		d := &Defs{Root: "Root", Items: append([]Def{{"Root", srcStruct(fields...)}}, defs...)}
 		if d.wf() == nil {
-			out = append(out, c02MiniShape{tag, d})
+			out = append(out, c02MiniShape{Tag: tag, Defs: d, Formats: fmts})
 		}
 	}
 	bools := []bool{true, false}
@@ -102,11 +109,16 @@ func c02MiniShapes(rot int) []c02MiniShape {
 		}
 	}
 	for _, v := range vars {
+		fmts = v.l.Fmts
 		mk(v.name, v.l.Defs, v.f)
 	}
+	fmts = nil
 	// two members: each variant with one partner, chosen by rotation
 	for i := 0; i < len(vars); i += 3 {
 		a, b := vars[i], vars[(i*7+rot*13+5)%len(vars)]
+		if a.l.Fmts != nil || b.l.Fmts != nil {
+			continue
+		}
 		fb := b.f
 		fb.Name = "b"
 		fb.Ty = b.l.Ty()
@@ -284,6 +296,9 @@ func init() {
 			defer os.RemoveAll(work)
 		}
 		shapes := c02MiniShapes(seed)
+		// names in non-canonical casings × definition kinds × member-naming defaults; constants × spellings (c02_names.go)
+		shapes = append(shapes, c02NameShapes()...)
+		shapes = append(shapes, c02ConstShapes()...)
 		if only, ok := args["shape"]; ok {
 			keep := shapes[:0]
 			for _, s := range shapes {
@@ -307,20 +322,31 @@ func init() {
 		hist := map[string]int{}
 		k := 0
 		for si, s := range shapes {
-			formats := []string{labFormats[(si+seed)%len(labFormats)]}
+			allowed := labFormats
+			if s.Formats != nil {
+				allowed = s.Formats
+			}
+			formats := []string{allowed[(si+seed)%len(allowed)]}
 			if thorough {
-				formats = labFormats
+				formats = allowed
+			} else if s.Pinned {
+				formats = s.PinFormats
 			}
 			for _, f := range formats {
 				cfgs := []c02Combo{fixed, full}
-				for r := 0; r < rotating; r++ {
+				if s.Pinned && !thorough && s.Spell == "" {
+					cfgs = []c02Combo{full}
+				}
+				for r := 0; r < rotating && !(s.Pinned && !thorough); r++ {
 					j := si*31 + seed*7 + r*len(shapes) + k
 					cfgs = append(cfgs, c02Mode(j, combos[j%len(combos)]))
 				}
 				for _, cfg := range cfgs {
 					id := fmt.Sprintf("m%d%s", k, labFormatSuffix[f])
 					k++
+					c02Spell = s.Spell
 					c, err := c02SrcCase(id, []c02Input{{f, id, s.Defs}}, cfg, work, 2, "mini:"+s.Tag)
+					c02Spell = ""
 					if err != nil {
 						return err
 					}
@@ -343,6 +369,10 @@ func init() {
 		combos := c02Combos(args["tier"])
 		gen := argGenOpts(args)
 		gen.MaxDefs, gen.MaxFields = 2, 4
+		c02Spell = "mixed"
+		if sp, ok := args["spell"]; ok {
+			c02Spell = sp
+		}
 		cases := []*c02IRCase{}
 		for i := from; i < from+n; i++ {
 			r := newRng(seed*7919 + uint64(i))
@@ -350,7 +380,8 @@ func init() {
 			combo := c02Mode(i+int(seed), combos[(i*5+int(seed))%len(combos)])
 			inputs := []c02Input{}
 			for k := 0; k < np; k++ {
-				d := genDefs(seed*131+uint64(k), i*3+k, gen)
+				f := labFormats[(i+k+int(seed))%len(labFormats)]
+				d := c02MaybeRestyle(genDefs(seed*131+uint64(k), i*3+k, gen), i*3+k+int(seed), f)
 				// every package has an inline (anonymous) struct
 				root := d.lookup(d.Root)
 				hasInline := false
@@ -362,7 +393,6 @@ func init() {
 				if root != nil && root.Kind == SStruct && !hasInline {
 					root.Fields = append(root.Fields, fld("zzInline", srcStruct(fld("q", srcBool(), true, false, nil)), k%2 == 0, false, nil))
 				}
-				f := labFormats[(i+k+int(seed))%len(labFormats)]
 				inputs = append(inputs, c02Input{f, fmt.Sprintf("x%d%c", i, 'a'+k), d})
 			}
 			c, err := c02SrcCase(fmt.Sprintf("x%d", i), inputs, combo, work, 2)
